@@ -8,6 +8,7 @@ import (
 	"sort"
 	"strconv"
 	"strings"
+	"sync"
 	"time"
 )
 
@@ -74,6 +75,8 @@ type c06Case struct {
 	Exp   string     `json:"exp"`
 	Dev   []c06Dev   `json:"dev"`
 	Alts  [][]string `json:"alts"`
+	Bares [][]string `json:"bares"` // further texts of the tree with fewer parentheses than the minimal rendering (around `x is T`)
+	Sites []int      `json:"sites"` // the expression sites (1-based, into the site table) the tree is placed at
 	NAlt  int        `json:"nalt"`
 	NDisc int        `json:"ndisc"`
 	Runs  []c06Run   `json:"runs"`
@@ -91,11 +94,77 @@ type c06Neg struct {
 }
 
 type c06Vec struct {
-	Fam     string    `json:"fam"`
-	Flat    []string  `json:"flat"`
-	NP      int       `json:"np"`
-	NegFlat []c06Neg  `json:"negflat"`
-	Cases   []c06Case `json:"cases"`
+	Fam       string    `json:"fam"`
+	Flat      []string  `json:"flat"`
+	NP        int       `json:"np"`
+	NegFlat   []c06Neg  `json:"negflat"`
+	Cases     []c06Case `json:"cases"`
+	SiteTable []c06Site `json:"sitetable"`
+}
+
+// an expression site (JqParse.ExprSites): program text around the expression and the tree the hook prints around
+// the expression's tree
+type c06Site struct {
+	Name    string `json:"name"`
+	Kind    string `json:"kind"` // stmt | fn | pat
+	Pre     string `json:"pre"`
+	Post    string `json:"post"`
+	TPre    string `json:"tpre"`
+	TPost   string `json:"tpost"`
+	Term    string `json:"term"`
+	NoFirst string `json:"nofirst"`
+}
+
+// the program whose tree is asked for, and that tree, for expression text e with tree sx at the site
+func (s *c06Site) treeProgram(e, sx string) (string, string) {
+	switch s.Kind {
+	case "fn":
+		return "function kk9() {\n" + s.Pre + e + s.Post + "\n}\n", "(prog (function kk9 () (block " + s.TPre + sx + s.TPost + ")))"
+	case "pat":
+		return s.Pre + e + s.Post, "(prog " + s.TPre + sx + s.TPost + ")"
+	}
+	return "BEGIN {\n" + s.Pre + e + s.Post + "\n}\n", "(prog (rule BeginRule - (block " + s.TPre + sx + s.TPost + ")))"
+}
+
+// c06SiteProgram: the expression at the site (ref == ""), or - the reference - the fully parenthesised form
+// evaluated into a variable by a statement of its own and the bare variable at the site: no grouping decision
+// is left to the site.  Same initialisation and the same final prints as c06Program.
+func (s *c06Site) valueProgram(e, ref string, run *c06Run) Job {
+	var sb strings.Builder
+	at := e
+	pre := ""
+	if ref != "" {
+		at = "z8"
+		pre = "z8 = (" + ref + ");\n" // the `;`: an expression statement that starts with ( [ - + must not continue the line before it
+	}
+	sb.WriteString("function f(x) { return x + 1 }\nfunction g() { return f }\nfunction idf(x) { return x }\nfunction ids(x, y) { return y }\n")
+	if s.Kind == "fn" {
+		sb.WriteString("function kk9() {\n" + pre + s.Pre + at + s.Post + "\n}\n")
+	}
+	sb.WriteString("BEGIN {\n")
+	names := []string{}
+	for p, v := range run.Vals {
+		fmt.Fprintf(&sb, "%s = %s\n", c06VarNames[p], c06Literal(v))
+		names = append(names, c06VarNames[p])
+	}
+	sb.WriteString("o = {k: 7}\nr = [4, 9, 2]\nu = 9\nv = 4\nw = 1\nr9 = [5, 6, 7, 8, 9, 10, 11, 12, 13, 14];\n")
+	tail := "print " + strings.Join(names, ", ") + "\nprint o, r, u, v, w\n}\n"
+	job := Job{Kind: "run"}
+	switch s.Kind {
+	case "fn":
+		sb.WriteString("print kk9()\n" + tail)
+	case "pat":
+		sb.WriteString("}\n")
+		if pre != "" {
+			sb.WriteString("{\n" + pre + "}\n")
+		}
+		sb.WriteString(s.Pre + at + s.Post + "\nEND {\n" + tail)
+		job.Files = []FileIn{{Name: "in.json", Data: []byte("[1]\n")}}
+	default:
+		sb.WriteString(pre + s.Pre + at + s.Post + "\n" + tail)
+	}
+	job.Prog = []byte(sb.String())
+	return job
 }
 
 var c06VarNames = []string{"a", "b", "c", "d", "e", "h"}
@@ -272,13 +341,16 @@ func c06Observe(r Result) c06Obs { return c06Obs{r.Class, string(r.Stdout)} }
 func c06Inconclusive(class string) bool { return class == "budget" || class == "timeout" }
 
 type c06Plan struct {
-	labels []string
-	jobs   []Job
+	labels     []string
+	jobs       []Job
+	labelsOnly bool // the callback of the stream runs under one lock: it needs the labels, not the program texts
 }
 
-func (p *c06Plan) add(label string, j Job) {
+func (p *c06Plan) add(label string, j func() Job) {
 	p.labels = append(p.labels, label)
-	p.jobs = append(p.jobs, j)
+	if !p.labelsOnly {
+		p.jobs = append(p.jobs, j())
+	}
 }
 
 func checkC06(c *Ctx) {
@@ -289,18 +361,28 @@ func checkC06(c *Ctx) {
 	c.Assume("whether `a + b += c` (compound assignment to a non-assignable target) is refused statically is not compared (C11); for `=` the refusal is compared because it is what `=` binding loosest means")
 	c.Assume("the reference evaluation (MC_Parse.Ev) chooses operands and is a verdict in one way only: a fully parenthesised text that prints, not the value of its own grouping, but exactly the value and variables the reference gives ANOTHER grouping of the same tokens (both inside the evaluated universe and different) was evaluated as that other grouping; a value matching neither is an operator question (C05), reported as model_value_disagree, not judged; runtime errors are never matched this way")
 	c.Assume("operator sequences longer than 3 are sampled (family deep, from the seed) or restricted to assignment chains (chain4)")
+	c.Assume("the right side of `is` is ONE type-name token (an identifier, `null` or `function`: is() in src/parser.go, JqParse.PIs), so what follows it continues the enclosing expression: `a < b is bool + 1` has the one reading ((a < b) is bool) + 1 although the table ranks + above is; such texts (JqParse/MC_Parse.Bares) are compared like the minimal rendering")
+	c.Assume("expression sites: the 24 places of JqParse.ExprSites (print arguments, conditions, the three for clauses, for-in, expression statement, call arguments, array items, object values, index, match subject and case body, group, return, rule pattern with and without a body); an expression that starts with `{` is not placed where the statement grammar reads `{` as a block; the case PATTERNS of match (a restricted pattern syntax) and selectors given on the command line are not sites; at a site the value is compared on the first operand assignment only")
 	pool := c.Pool()
 
-	fams := []string{"bin1", "bin2", "bin3", "pre1", "pre2", "prepre", "presuf", "suf1", "sufsuf", "inner", "chain4", "deep", "prim1", "prim2", "prim3", "preprim", "neg"}
-	mod, ndeep, pmod := 3, 96, 192
+	fams := []string{"bin1", "bin2", "bin3", "pre1", "pre2", "prepre", "presuf", "suf1", "sufsuf", "inner", "chain4", "deep", "prim1", "prim2", "prim3", "preprim", "iskw", "neg"}
+	// families whose every tree is placed at every expression site (the trees of the others: at one site each)
+	siteAll := []string{"bin1", "pre1", "prepre", "presuf", "suf1", "bin2"}
+	mod, ndeep, pmod, siteMod := 3, 96, 192, 3
 	if c.Thorough() {
+		siteMod = 1
 		fams = append(fams, "suf2")
+		siteAll = append(siteAll, "prim1", "iskw", "sufsuf", "inner", "preprim", "pre2")
 		mod, ndeep, pmod = 1, 4000, 8
 	}
 
 	famCount := map[string]int{}
 	var nCases, nAlt, nDiscModel, nDiscImpl, nAltImplRun, nRuns, nTreeOnly int
-	var modelAgree, modelDisagree, modelUnknown, nRegrouped, nRegroupChecks int
+	var modelAgree, modelDisagree, modelUnknown, nRegrouped, nRegroupChecks, nBare, nSiteRuns int
+	siteCount := map[string]int{}
+	var siteTable []c06Site // JqParse.ExprSites, sent once by the model (vector of family neg); cases wait for it
+	var siteMu sync.Mutex
+	var waiting []c06Vec
 	var disagreeSamples []any
 	type devHit struct {
 		text string
@@ -332,11 +414,13 @@ func checkC06(c *Ctx) {
 				return
 			}
 		}
+		index := make(map[string]int, len(labels))
+		for i, l := range labels {
+			index[l] = i
+		}
 		at := func(label string) (Result, bool) {
-			for i, l := range labels {
-				if l == label {
-					return res[i], true
-				}
+			if i, ok := index[label]; ok {
+				return res[i], true
 			}
 			return Result{}, false
 		}
@@ -367,11 +451,59 @@ func checkC06(c *Ctx) {
 				"why": "the parser's tree for this text is not the tree of the grammar (DESIGN.md 3.9)"}))
 			return false
 		}
-		if os.Getenv("VERIF_C06_SKIP_TREE") != "" {
-			// development only: show that the hook-free value comparison bites on its own
+		skipTree := os.Getenv("VERIF_C06_SKIP_TREE") != "" // development only: show that the hook-free value comparison bites on its own
+		if skipTree {
 		} else if !treeCheck("sx-text", cs.Text, false, true) || !treeCheck("sx-full", cs.Full, false, false) ||
 			!treeCheck("sx-text-lit", cs.Text, true, true) || !treeCheck("sx-full-lit", cs.Full, true, false) {
 			return
+		}
+		// ---- (a') the texts with fewer parentheses than the minimal rendering that the grammar still reads as this tree
+		for x, bare := range cs.Bares {
+			if !skipTree && (!treeCheck(fmt.Sprintf("sx-bare%d", x), bare, false, false) || !treeCheck(fmt.Sprintf("sx-bare%d-lit", x), bare, true, false)) {
+				return
+			}
+			nBare++
+		}
+		// ---- (d) the same tree at every expression site of the statement grammar
+		var text, full, want string
+		if len(cs.Sites) > 0 {
+			text = c06Layout(c06Subst(cs.Text, run0, false))
+			full = c06Layout(c06Subst(cs.Full, run0, false))
+			want = c06SubstSexpr(cs.Exp, cs.Text, run0, false)
+		}
+		for _, k := range cs.Sites {
+			site := &siteTable[k-1]
+			for _, form := range []string{"text", "full"} {
+				src := text
+				if form == "full" {
+					src = full
+				}
+				r, ok := at(fmt.Sprintf("site%d-sx-%s", k, form))
+				if !ok || skipTree {
+					continue
+				}
+				prog, wantProg := site.treeProgram(src, want)
+				if r.Class == "ok" && r.Sexpr == wantProg {
+					continue
+				}
+				c.Violation("site-tree-"+site.Name, rep(map[string]any{"site": site.Name, "program": prog, "got_class": r.Class, "got_tree": r.Sexpr, "want_tree": wantProg, "got_msg": r.ErrMsg,
+					"why": "at this place of the statement grammar the parser's tree for the expression is not the tree of the grammar (the meaning of an expression does not depend on where it stands)"}))
+				return
+			}
+			rt, ok1 := at(fmt.Sprintf("site%d-text", k))
+			rr, ok2 := at(fmt.Sprintf("site%d-ref", k))
+			if !ok1 || !ok2 {
+				continue
+			}
+			nSiteRuns++
+			siteCount[site.Name]++
+			if ot, or := c06Observe(rt), c06Observe(rr); ot != or {
+				c.Violation("site-value-"+site.Name, rep(map[string]any{"site": site.Name, "operands": run0.Vals, "types": run0.Tys,
+					"program_text": string(site.valueProgram(text, "", run0).Prog), "program_reference": string(site.valueProgram(text, full, run0).Prog),
+					"got_text": ot, "got_reference": or,
+					"why": "the expression at this place of the statement grammar behaves differently from its fully parenthesised form evaluated first (into z8) with the bare variable at the same place"}))
+				return
+			}
 		}
 
 		// ---- (b) value conformance: Render(t) against FullParen(t), both on the real code
@@ -404,6 +536,24 @@ func checkC06(c *Ctx) {
 					"got_text":     ot, "got_full": of,
 					"why": "the expression and its fully parenthesised form print different things"}))
 				return
+			}
+			for x, bare := range cs.Bares {
+				for _, form := range []string{"", "-lit"} {
+					rb, ok1 := at(fmt.Sprintf("run%d-bare%d%s", q, x, form))
+					rf, ok2 := at(fmt.Sprintf("run%d-full%s", q, form))
+					if !ok1 || !ok2 {
+						continue
+					}
+					nRuns++
+					if ob, of := c06Observe(rb), c06Observe(rf); ob != of {
+						c.Violation("value-bare", rep(map[string]any{"operands": run.Vals, "types": run.Tys, "form": form,
+							"program_text": string(c06Program(c06Layout(c06Subst(bare, run, form != "")), run)),
+							"program_full": string(c06Program(c06Layout(c06Subst(cs.Full, run, form != "")), run)),
+							"got_text":     ob, "got_full": of,
+							"why": "the expression (written with fewer parentheses than the table asks for, but with one reading only: the right side of `is` is one token) and its fully parenthesised form print different things"}))
+						return
+					}
+				}
 			}
 			// ---- (c) parentheses override everything, on the evaluator's side too: the
 			// fully parenthesised text (and the literal form) must not print what ANOTHER
@@ -548,7 +698,7 @@ func checkC06(c *Ctx) {
 		}
 		var cs c06Case
 		VecDecode([]byte(parts[2]), &cs)
-		plan := c06CasePlan(&cs)
+		plan := c06CasePlan(&cs, siteTable, true)
 		if len(r.Hist) != len(plan.labels) {
 			problem("C06: worker returned %d results for %d jobs (%s) %s", len(r.Hist), len(plan.labels), r.Class, r.Detail)
 			return
@@ -565,9 +715,20 @@ func checkC06(c *Ctx) {
 		}})
 	}
 
+	submitCases := func(v *c06Vec) {
+		for i := range v.Cases {
+			cs := &v.Cases[i]
+			if len(cs.Runs) == 0 {
+				infra("C06: vector without operand assignment: %s", c06Layout(cs.Text))
+			}
+			plan := c06CasePlan(cs, siteTable, false)
+			b, _ := json.Marshal(cs)
+			st.Submit(Job{Kind: "history", Hist: plan.jobs, Tag: "case\x00" + v.Fam + "\x00" + string(b)})
+		}
+	}
 	var tlcWall time.Duration
 	cfg := cfgText("INIT Init", "NEXT Next", "CONSTANTS",
-		"Fams = {"+c06Quote(fams)+"}", fmt.Sprintf("Seed = %d", c.Seed%1000), fmt.Sprintf("Mod = %d", mod), fmt.Sprintf("NDeep = %d", ndeep), fmt.Sprintf("PMod = %d", pmod),
+		"Fams = {"+c06Quote(fams)+"}", fmt.Sprintf("Seed = %d", c.Seed%1000), fmt.Sprintf("Mod = %d", mod), fmt.Sprintf("NDeep = %d", ndeep), fmt.Sprintf("PMod = %d", pmod), "SiteAll = {"+c06Quote(siteAll)+"}", fmt.Sprintf("SiteMod = %d", siteMod),
 		"INVARIANT Laws", "INVARIANT NegLaws", "INVARIANT Vec", "CHECK_DEADLOCK FALSE")
 	res := c.TLC(TLCOpt{Module: "MC_Parse", Cfg: cfg, Workers: 12, Heap: "6g", Timeout: 40 * time.Minute,
 		OnVec: func(raw []byte) {
@@ -576,16 +737,26 @@ func checkC06(c *Ctx) {
 			for i := range v.NegFlat {
 				submitNeg(v.Fam, &v.NegFlat[i])
 			}
-			for i := range v.Cases {
-				cs := &v.Cases[i]
-				if len(cs.Runs) == 0 {
-					infra("C06: vector without operand assignment: %s", c06Layout(cs.Text))
+			siteMu.Lock()
+			defer siteMu.Unlock()
+			if len(v.SiteTable) > 0 {
+				siteTable = v.SiteTable
+				for i := range waiting {
+					submitCases(&waiting[i])
 				}
-				plan := c06CasePlan(cs)
-				b, _ := json.Marshal(cs)
-				st.Submit(Job{Kind: "history", Hist: plan.jobs, Tag: "case\x00" + v.Fam + "\x00" + string(b)})
+				waiting = nil
+			}
+			if len(v.Cases) > 0 {
+				if siteTable == nil {
+					waiting = append(waiting, v)
+				} else {
+					submitCases(&v)
+				}
 			}
 		}})
+	if siteTable == nil || len(waiting) > 0 {
+		infra("C06: the model sent no site table")
+	}
 	tlcWall = res.Wall
 	st.Wait()
 	if len(problems) > 0 {
@@ -614,8 +785,8 @@ func checkC06(c *Ctx) {
 		}
 	}
 	c.Set("exhaustive", true)
-	c.Set("rule", "TLC enumerates token sequences (all 21 binary operators: singles, ordered pairs, ordered triples [quick: the third with (i+j+k+seed)%3=0]; a prefix operator at every operand of singles and pairs, two prefixes; each suffix kind at every operand of singles [thorough: pairs]; suffix pairs; prefix with suffix; precedence restarting inside [ ] ( ) and array literals; assignment chains of 4; sampled sequences of 4 operators; every other primary form [regex literal, single-quoted string, null, $, array literal, object literal, match expression] as the operand at every place of every single [and at both places] and every ordered pair, under a prefix operator next to every operator, and at the places of the ordered triples with (i+j+k+place+primary+seed)%PMod=0) and for each every well-formed grouping (2, 5, 14 bracketings; prefix/suffix applied at every enclosing sub-expression). One case = one tree; non-trivial = the token sequence has another grouping and some operand assignment tells the two apart (by the reference evaluation or on the implementation); distinct by tree")
-	c.Set("checker_cmd", "tlc MC_Parse (laws: Parse(Render(t)) = t, Parse(FullParen(t)) = t, no redundant parenthesis, same tokens, injectivity, deviation characterisation); replay through lang.VerifExprSexpr and lang.EvalProgram")
+	c.Set("rule", "TLC enumerates token sequences (all 21 binary operators: singles, ordered pairs, ordered triples [quick: the third with (i+j+k+seed)%3=0]; a prefix operator at every operand of singles and pairs, two prefixes; each suffix kind at every operand of singles [thorough: pairs]; suffix pairs; prefix with suffix; precedence restarting inside [ ] ( ) and array literals; assignment chains of 4; sampled sequences of 4 operators; every other primary form [regex literal, single-quoted string, null, $, array literal, object literal, match expression] as the operand at every place of every single [and at both places] and every ordered pair, under a prefix operator next to every operator, and at the places of the ordered triples with (i+j+k+place+primary+seed)%PMod=0; the keyword type names null and function after every `is` of every single, ordered pair [each choice] and selected triple [one choice]) and for each every well-formed grouping (2, 5, 14 bracketings; prefix/suffix applied at every enclosing sub-expression). Every tree of the families "+strings.Join(siteAll, " ")+" is also placed at every expression site of the statement grammar (JqParse.ExprSites), of the other trees "+fmt.Sprintf("one in %d", siteMod)+" (chosen by the tree and the seed) at one site chosen likewise: the program's tree (VerifProgSexpr) with the minimal and the fully parenthesised text at the site, and the run against `z8 = (fully parenthesised)` followed by the bare z8 at the same site. One case = one tree; non-trivial = the token sequence has another grouping and some operand assignment tells the two apart (by the reference evaluation or on the implementation); distinct by tree")
+	c.Set("checker_cmd", "tlc MC_Parse (laws: Parse(Render(t)) = t, Parse(FullParen(t)) = t, no redundant parenthesis except those of Bares(t), which parse to t, same tokens, injectivity, deviation characterisation, SiteLaw: followed by the terminator of a site the tokens parse to t and stop before it); replay through lang.VerifExprSexpr and lang.EvalProgram")
 	c.Set("bounds", map[string]any{"families": fams, "triple_selection_mod": mod, "deep_samples": ndeep, "primary_triple_selection_mod": pmod, "primary_forms": "/s/ 's' null $ [4, 9] {k: 7} match (2) { 2 => 5 }", "operand_pool": "12 6 2 3 \"s\" true false 5", "type_names": "number string bool"})
 	c.Set("families", famCount)
 	c.Set("trees", nCases)
@@ -630,6 +801,11 @@ func checkC06(c *Ctx) {
 		c.Assume("texts whose only defect is a non-assignable `=` target (`-a = b`, `f() = b`) and which the parser accepts with the grouping the table gives are counted, not judged: target validation is C11")
 	}
 	c.Set("program_pairs_compared", nRuns)
+	c.Set("texts_with_fewer_parentheses_than_the_table_asks_for", nBare)
+	c.Set("site_program_pairs_compared", nSiteRuns)
+	c.Set("site_program_pairs_by_site", siteCount)
+	c.Set("families_at_every_site", siteAll)
+	c.Set("other_trees_at_one_site_one_in", siteMod)
 	c.Set("alternative_groupings", nAlt)
 	c.Set("alternatives_told_apart_by_model_operands", nDiscModel)
 	c.Set("alternatives_told_apart_on_impl", nDiscImpl)
@@ -702,11 +878,11 @@ func c06Quote(ss []string) string {
 }
 
 // c06CasePlan: the jobs of one tree, executed in order in one worker process.
-func c06CasePlan(cs *c06Case) *c06Plan {
-	p := &c06Plan{}
+func c06CasePlan(cs *c06Case, sites []c06Site, labelsOnly bool) *c06Plan {
+	p := &c06Plan{labelsOnly: labelsOnly}
 	run0 := &cs.Runs[0]
 	sx := func(label string, toks []string, lits bool) {
-		p.add(label, Job{Kind: "sexpr", Prog: []byte(c06Layout(c06Subst(toks, run0, lits)))})
+		p.add(label, func() Job { return Job{Kind: "sexpr", Prog: []byte(c06Layout(c06Subst(toks, run0, lits)))} })
 	}
 	sx("sx-text", cs.Text, false)
 	sx("sx-full", cs.Full, false)
@@ -715,10 +891,39 @@ func c06CasePlan(cs *c06Case) *c06Plan {
 		sx("sx-text-lit", cs.Text, true)
 		sx("sx-full-lit", cs.Full, true)
 	}
+	for x, bare := range cs.Bares {
+		sx(fmt.Sprintf("sx-bare%d", x), bare, false)
+		if hasLit {
+			sx(fmt.Sprintf("sx-bare%d-lit", x), bare, true)
+		}
+	}
+	// the tree at the expression sites of the statement grammar: the program's tree with the minimal and with the
+	// fully parenthesised text at the site; the value against the reference that leaves the site no grouping decision
+	siteText, siteFull := "", ""
+	if len(cs.Sites) > 0 && !labelsOnly {
+		siteText = c06Layout(c06Subst(cs.Text, run0, false))
+		siteFull = c06Layout(c06Subst(cs.Full, run0, false))
+	}
+	for _, k := range cs.Sites {
+		if k < 1 || k > len(sites) {
+			infra("C06: site %d of %d", k, len(sites))
+		}
+		site := &sites[k-1]
+		tree := func(e string) func() Job {
+			return func() Job {
+				prog, _ := site.treeProgram(e, "")
+				return Job{Kind: "psexpr", Prog: []byte(prog)}
+			}
+		}
+		p.add(fmt.Sprintf("site%d-sx-text", k), tree(siteText))
+		p.add(fmt.Sprintf("site%d-sx-full", k), tree(siteFull))
+		p.add(fmt.Sprintf("site%d-text", k), func() Job { return site.valueProgram(siteText, "", run0) })
+		p.add(fmt.Sprintf("site%d-ref", k), func() Job { return site.valueProgram(siteText, siteFull, run0) })
+	}
 	for q := range cs.Runs {
 		run := &cs.Runs[q]
 		prog := func(label string, toks []string, lits bool) {
-			p.add(label, Job{Kind: "run", Prog: c06Program(c06Layout(c06Subst(toks, run, lits)), run)})
+			p.add(label, func() Job { return Job{Kind: "run", Prog: c06Program(c06Layout(c06Subst(toks, run, lits)), run)} })
 		}
 		prog(fmt.Sprintf("run%d-text", q), cs.Text, false)
 		prog(fmt.Sprintf("run%d-full", q), cs.Full, false)
@@ -734,6 +939,12 @@ func c06CasePlan(cs *c06Case) *c06Plan {
 		}
 		for x, alt := range cs.Alts {
 			prog(fmt.Sprintf("run%d-alt%d", q, x), alt, false)
+		}
+		for x, bare := range cs.Bares {
+			prog(fmt.Sprintf("run%d-bare%d", q, x), bare, false)
+			if q == 0 && hasLit {
+				prog(fmt.Sprintf("run0-bare%d-lit", x), bare, true)
+			}
 		}
 	}
 	return p
